@@ -257,11 +257,20 @@ def coindexing(ctx, res, member, err, dids, IDPAIRS, rule):
                 sel.args[1][0] if sel is not None and sel.args[1]
                 else None)
         okc = False
-        if cond_d.op == "cmp" and cond_d.args[0] in ("NotEq", "Lt",
-                                                     "Gt") and \
-                src is not None:
+        # `a.size != b.size`, or the truth value of their difference
+        sides = None
+        cd_ = cond_d
+        if cd_.op == "cmp" and cd_.args[0] in ("NotEq", "Lt", "Gt") and any(
+                tm.is_const(z) and tm.const_val(z) == 0
+                for z in cd_.args[1:]):
+            cd_ = [z for z in cd_.args[1:] if not tm.is_const(z)][0]
+        if cd_.op == "cmp" and cd_.args[0] in ("NotEq", "Lt", "Gt"):
+            sides = (cd_.args[1], cd_.args[2])
+        elif cd_.op == "binop" and cd_.args[0] == "Sub":
+            sides = (cd_.args[1], cd_.args[2])
+        if sides is not None and src is not None:
             sizes = set()
-            for side in (cond_d.args[1], cond_d.args[2]):
+            for side in sides:
                 if side.op == "attr" and side.args[1] == "size":
                     sizes.add(side.args[0])
                 elif is_call_to(side, "builtins.len") and side.args[1]:
